@@ -39,13 +39,18 @@ class Ob(object):
 class Ctx(object):
     """Per-run analysis context: program model, evaluator, CFG cache."""
 
-    def __init__(self, repo=None):
+    def __init__(self, repo=None, tier='quick'):
+        self.tier = tier
         self.prog = Program(repo)
         self.ev = Evaluator(self.prog)
         self._cfg = {}
         self.obs = []
         self.notes = []
         self.cache = {}
+
+    def scale(self, quick, thorough):
+        """Domain size of a truth table: the thorough tier explores a wider one."""
+        return thorough if self.tier == 'thorough' else quick
 
     def cfg(self, f):
         c = self._cfg.get(f.qualname)
@@ -96,7 +101,7 @@ def run_property(pid, spec, tier, repo=None):
     """Run all rules of one property.  Returns (exit_code, evidence dict, lines)."""
     t0 = time.time()
     lines = []
-    ctx = Ctx(repo)
+    ctx = Ctx(repo, tier)
     per_rule = {}
     errors = []   # a rule that cannot decide must not hide what the other rules found
     for rule_fn in spec['rules']:
